@@ -54,7 +54,7 @@ def gen_lines(rng, build, reps, which='C10'):
                     if o.split('.')[0] in ARITH or o in ('inh.add', 'inh.sub', 'inh.mul', 'add.inherent', 'sub.inherent', 'mul.inherent', 'eq', 'ct_eq'):
                         lines.append('%s %s %s' % (op, F(), F() if rep else '0'))
                     elif o in UN: lines.append('%s %s' % (op, F() if rep else '0'))
-                    elif o in ('sum.v', 'sum.r', 'product.v', 'product.r'):
+                    elif o in ('sum.v', 'sum.r', 'product.v', 'product.r', 'sum.lazy', 'product.lazy'):
                         n = rep % 6; lines.append('%s %s' % (op, ';'.join(F() for _ in range(n)) if n else '-'))
                     elif o == 'select': lines.append('%s %s %s %d' % (op, F(), F(), rep % 2))
                     elif o == 'power':
@@ -120,7 +120,7 @@ def predicate_search(ctx, build, lines, hout, which):
         elif a is not None and len(a) == 1 and op in ('inverse',): exp = 'NONE' if a[0] % m == 0 else 'SOME %x' % pow(a[0], -1, m)
         elif a is not None and len(a) == 2 and op in ('eq', 'ct_eq'): exp = '1' if (a[0] - a[1]) % m == 0 else '0'
         elif op == 'select' and a is not None: exp = '%x' % (a[1] if a[2] == 1 else a[0])
-        elif op in ('product.v', 'product.r', 'sum.v', 'sum.r'):
+        elif op in ('product.v', 'product.r', 'sum.v', 'sum.r', 'product.lazy', 'sum.lazy'):
             xs = [int(x, 16) for x in t[1].split(';')] if t[1] != '-' else []
             acc = 1 if op.startswith('product') else 0
             for x in xs: acc = acc * x % m if op.startswith('product') else (acc + x) % m
